@@ -16,6 +16,8 @@ from harness.wire import LexError
 
 PROP = "C06"
 LEVEL = "exploration"
+TECHNIQUE = 'forked-builder probe (copy.deepcopy) of all four shutdown operations at random checkpoints, codes read with the independent lexer'
+LEVEL_TEXT = 'Held on random states x bounds configurations incl. tool-power ranges excluding zero.'
 RULE = ("random histories over the state-tracked API under random bounds configurations (incl. "
         "tool-power ranges with min > 0, feed/tool-number/temperature/axes bounds); at 3-6 checkpoints "
         "per history the builder is forked and tool_off / power_off / coolant_off / emergency_halt(msg, "
